@@ -64,3 +64,10 @@ CORPUS += [
     M("device-id-masked-in-init", L, "        self._device_id = device_id\n", "        self._device_id = device_id & 0xFFFFFFFFFFFF\n"),
     M("v2-size-clamped", L, "                total_size = max(int.from_bytes(buf[4:6], \"little\"), 56)", "                total_size = min(max(int.from_bytes(buf[4:6], \"little\"), 56), 311)"),
 ]
+# round 9 (growth): an optional header field with a constant default nobody supplies
+CORPUS += [
+    M("n-message-id-default-zero", L, "    def encode(cls, device_id: int, command: bytes) -> bytes:", "    def encode(cls, device_id: int, command: bytes, message_id: int = 0) -> bytes:", "S",
+      also=[(L, "        header += bytes(4)  # Message ID", "        header += message_id.to_bytes(4, \"little\")  # Message ID")]),
+    M("message-id-default-one", L, "    def encode(cls, device_id: int, command: bytes) -> bytes:", "    def encode(cls, device_id: int, command: bytes, message_id: int = 1) -> bytes:",
+      also=[(L, "        header += bytes(4)  # Message ID", "        header += message_id.to_bytes(4, \"little\")  # Message ID")]),
+]
